@@ -78,7 +78,7 @@ def run(prop, tier, replay=None):
         mc_info["MC_Spy_blocking_control.cfg"] = "PublishTerminates violated, as it must be"
         print("TLC negative control: a publisher that only ever blocks on a full queue violates PublishTerminates in the model (expected)")
         # 2. scenarios
-        scenarios = fs.tlc_scenarios(work, ntlc, seed) + fs.gen_scenarios(seed, ngen) + fs.flood_scenarios(seed)
+        scenarios = fs.tlc_scenarios(work, ntlc, seed) + fs.gen_scenarios(seed, ngen) + fs.flood_scenarios(seed, ("resume",) if tier == "quick" else ("resume", "fail"))
     # 3. the real spyServer
     lines, wall = fs.replay(work, scenarios, prop, probes=probes)
     by_t = {}
